@@ -1179,9 +1179,42 @@ func main() {
 			addViol(r)
 		}
 	}
+	if (pd.crashIsViol || pd.stuckIsViol) && len(stuck) > 0 {
+		// the watchdog measures wall-clock time, which a loaded machine stretches: a run that tripped it is run
+		// again on its own, and only if it makes no progress that second time either does it count
+		var confirmed []*Result
+		for _, r := range stuck {
+			if r.job == nil {
+				confirmed = append(confirmed, r)
+				continue
+			}
+			again := pl.runChunk([]*Job{r.job})
+			if len(again) == 1 && again[0].Class != "stuck" {
+				fmt.Fprintf(os.Stderr, "note: run idx=%d tripped the wall-clock watchdog under load and completed (%s) when run again on its own\n", r.Idx, again[0].Class)
+				counts["stuck"]--
+				counts[again[0].Class]++
+				switch again[0].Class {
+				case "violation":
+					violations = append(violations, again[0])
+					addViol(again[0])
+				case "crash":
+					crashes = append(crashes, again[0])
+					if pd.crashIsViol {
+						addViol(again[0])
+					}
+				case "error":
+					errors = append(errors, again[0])
+				}
+				continue
+			}
+			confirmed = append(confirmed, r)
+		}
+		stuck = confirmed
+	}
 	if pd.crashIsViol || pd.stuckIsViol {
 		// a run that makes no progress for the whole wall-clock watchdog (endless loop, allocation
-		// storm) is a failure of the code under test for these properties, not of the framework
+		// storm), twice, the second time with the machine to itself, is a failure of the code under test for
+		// these properties, not of the framework
 		for _, r := range stuck {
 			r.Kind = "stuck"
 			r.Sig = "stuck:no-progress-for-" + pl.jobWall.String()
